@@ -13,7 +13,8 @@ Inductive query :=
   | QDrange (x y : Z)
   | QSweep (a : option adjk) (d : Z)
   | QClock (d : Z)                          (* clock(d): default adj *)
-  | QBump (a : option adjk) (d : Z) (toks : list (Z * Z)).   (* dt_bump(d, 'nb...', adj) *)      (* is_bday d, adjust d, add d n for every n in [-40, 40] *)
+  | QBump (a : option adjk) (d : Z) (toks : list (Z * Z))
+  | QDrangeB (start_is_bump : bool) (x : Z) (toks : list (Z * Z)).   (* drange('<n>b', x, '1b') / drange(x, '<n>b', '1b'): date_range resolves the bump endpoint with the calendar's own dt_bump from x *)   (* dt_bump(d, 'nb...', adj) *)      (* is_bday d, adjust d, add d n for every n in [-40, 40] *)
 
 Definition JR {A} (f : A -> J) (r : res A) : J :=
   match r with Ok a => f a | KeyError => JErr "KeyError" | OutOfFuel => JErr "OutOfFuel" end.
@@ -39,6 +40,12 @@ Definition run_query (q : query) : J :=
                       map (fun n => JR JZ (add hol wk month_of_ord t0 t1 T fuel (eff a) d n)) (rng (-40) 81))
   | QClock d => JR JZ (clock hol wk month_of_ord t0 t1 T fuel dflt d)
   | QBump a d toks => JR JZ (dt_bump_b hol wk month_of_ord t0 t1 T fuel (eff a) d toks)
+  | QDrangeB sb x toks =>
+      match dt_bump_b hol wk month_of_ord t0 t1 T fuel dflt x toks with
+      | Ok e => JR JLZ (if sb then drange_1b hol wk month_of_ord t0 t1 T fuel dflt e x else drange_1b hol wk month_of_ord t0 t1 T fuel dflt x e)
+      | KeyError => JErr "KeyError"
+      | OutOfFuel => JErr "OutOfFuel"
+      end
   end.
 End Run.
 
@@ -62,7 +69,7 @@ Inductive rg_op :=
 Definition needs_table (q : query) : bool :=
   match q with
   | QAdd _ _ n => add_uses_table n
-  | QBdays _ _ _ | QDrange _ _ | QSweep _ _ | QClock _ => true
+  | QBdays _ _ _ | QDrange _ _ | QSweep _ _ | QClock _ | QDrangeB _ _ _ => true
   | QBump _ _ toks => existsb (fun t => add_uses_table (fst t)) toks
   | _ => false
   end.
